@@ -39,9 +39,9 @@ type World struct {
 	// GuardGrowth: buffers allocated at the library's growth sites end flush against an unmapped page
 	GuardGrowth bool
 	grown       []*Buf
-	HashSeed   uint64 // seed of the string hash seam (tape-chosen by the harness; 0 = default)
-	curOp      int // harness-maintained: id of the operation that is running (for provenance)
-	Events     func(s string)
+	HashSeed    uint64 // seed of the string hash seam (tape-chosen by the harness; 0 = default)
+	curOp       int    // harness-maintained: id of the operation that is running (for provenance)
+	Events      func(s string)
 }
 
 const (
